@@ -104,6 +104,14 @@ impl List {
             }
         }
 
+        // A list holds its coupons in the first `coupon_count` slots, and 0 marks an empty slot.
+        let stored = coupons.iter().filter(|&&c| c != COUPON_EMPTY).count();
+        if stored != coupon_count || coupons[..coupon_count].contains(&COUPON_EMPTY) {
+            return Err(Error::deserial(format!(
+                "list image declares {coupon_count} coupons but holds {stored}"
+            )));
+        }
+
         Ok(Self {
             container: Container::from_coupons(lg_arr, coupons.into_boxed_slice(), coupon_count),
         })
